@@ -125,6 +125,7 @@ func runCaseK(drv *vh.Driver, ci caseInput, gen *genState, nOps int, stopOnKnown
 			return ci, nil, st, err
 		}
 		defer w.close()
+		w.scr = vh.NewRNG(strHash(ci.initLine()))
 		if gen != nil {
 			gen.w = w
 			ci.ops = nil
@@ -308,6 +309,14 @@ func runCaseK(drv *vh.Driver, ci caseInput, gen *genState, nOps int, stopOnKnown
 		return ci, nil, st, nil
 	}()
 	return ci, f, knownFail, st, err
+}
+
+func strHash(s string) uint64 {
+	h := uint64(1469598103934665603)
+	for i := 0; i < len(s); i++ {
+		h = (h ^ uint64(s[i])) * 1099511628211
+	}
+	return h
 }
 
 func sameFailure(a, b *caseFail) bool {
